@@ -6,8 +6,8 @@
    qargs and took a copy of the requester's) and the query pq t written into its path; the Client was constructed with method cmethod) after an arbitrary
    schedule evs of  Enq tag  (Client.request) and  Pass rc o  (one Client.service();
    rc = the reconnect timer of a reconnectable connector had expired at its start,
-   o = Some reply when a complete reply was consumed in that pass) and  Eof  (the connector read the
-   server's close).  All theorems
+   o = Some reply when a complete reply was consumed in that pass) Eof  (the connector read the
+   server's close) and  Take  (the application calls Client.respond()).  All theorems
    quantify over every schedule and every server behaviour (immediate, delayed =
    Pass false None, redirecting, closing = rp_close). *)
 From Hio Require Import Base.Prelude Model.HttpClient Proofs.HttpClientProofs.
@@ -144,6 +144,16 @@ Example C19_example_reconnect :
   let s := run (fun _ => 0) (fun _ => None) (fun _ => []) (fun _ => nopay) (init_m true false true 0) evs in
   wire_reqs (wire s) = [1; 2; 3] /\ map w_conn (wire s) = [0; 1; 1] /\ length (responses s) = 2%nat.
 Proof. vm_compute. repeat split. Qed.
+
+(* Client.respond() hands the entries out oldest first: the non-None results of all respond() calls so
+   far are exactly the first ntaken entries of the response log, in order (with C19_fifo: in queue order,
+   the i-th answer handed out belongs to the i-th queued request); None is returned only when nothing
+   waits. *)
+Theorem C19_respond_fifo : forall mof qof pq pay reconn https redirectable cmethod evs,
+  let s := run mof qof pq pay (init_m reconn https redirectable cmethod) evs in
+  somes (takes s) = firstn (ntaken s) (responses s) /\ (ntaken s <= length (responses s))%nat.
+Proof. exact respond_fifo. Qed.
+Print Assumptions C19_respond_fifo.
 
 (* Liveness is NOT part of what is proved and is false under a closing server
    (open finding C19-close-strands-queue): after a reply whose server closes the
